@@ -157,6 +157,7 @@ func runC11(c *Ctx, r *Rec) {
 	if parser, _ := c.impl("cdcn", "ParserLike"); parser != nil {
 		checkFreshParseState(c, r, "D5-fresh-parse-state", parser)
 		checkReentrantMethodsKeepLocals(c, r, "D5-re-entrant-methods-keep-locals", parser)
+		checkRuneErrorWithWidth(c, r, "D4-rune-error-with-width", "cdcn")
 	}
 
 	// ---- D2
